@@ -1,5 +1,5 @@
 (* Gen/EditC15.v -- corollaries that combine the parser theorems (EditParseThm) with the split theorems (EditSplitThm),
-   the guarded family statement, and the refutation witnesses of the known findings (F7). *)
+   the family and member statements (F7 repaired) with the former finding witnesses as accepted Examples. *)
 From Coq Require Import List String Bool Permutation Arith.
 Import ListNotations.
 From IT Require Import Gen.Edit Gen.EditSplitThm Gen.EditParseThm.
@@ -31,53 +31,51 @@ Proof.
   exact (split_edit_known_accepted A (d, i, r) p K1 K2 Hi Hr).
 Qed.
 
-(* known class "family-edit-multi": a family-level list with a number of elements other than one *)
-Definition fam_multi (e : fam_ast) : bool :=
-  match e with FList l => negb (Nat.eqb (List.length l) 1) | _ => false end.
-
-Theorem family_parse_guarded : forall e : fam_ast, nonempty_fam e = true -> fam_multi e = false ->
+(* family level (F7 repaired): a list of any length is parsed per the documented grammar edit(def, imp(..), trt(..)) *)
+Theorem family_parse_full : forall e : fam_ast, nonempty_fam e = true ->
   forget (edit_parse_family (render_fam e)) = if legal_fam e then Some (denote_fam e) else None.
-Proof.
-  intros [| |l] Hn Hm.
-  - reflexivity.
-  - reflexivity.
-  - simpl in Hm. apply negb_false_iff in Hm. apply Nat.eqb_eq in Hm.
-    destruct l as [|x [|y l]]; simpl in Hm; try discriminate.
-    apply parse_family_single. simpl in Hn. rewrite andb_true_r in Hn. exact Hn.
-Qed.
+Proof. exact parse_family_grammar. Qed.
 
-Example family_guard_satisfiable :
-  let e := FList [SFileS [SDef; SImp (Some [NName "new"])]] in
-  nonempty_fam e = true /\ fam_multi e = false /\ legal_fam e = true.
+(* former witness of the family-edit-multi finding, now accepted with its declarative meaning *)
+Example family_edit_multi_accepted :
+  let e := FList [SSect SDef; SSect (SImp None)] in
+  nonempty_fam e = true /\ legal_fam e = true /\ edit_parse_family (render_fam e) = Ok (denote_fam e)
+  /\ ea_live (denote_fam e) = ((true, false), (Some [], false), (None, false)).
 Proof. repeat split. Qed.
 
-(* FULL STATEMENT (false of the crate):  forall e, nonempty_fam e = true ->
-     forget (edit_parse_family (render_fam e)) = if legal_fam e then Some (denote_fam e) else None. *)
-Theorem family_edit_multi_refuted : exists e : fam_ast,
-  nonempty_fam e = true /\ fam_multi e = true /\ legal_fam e = true
-  /\ forget (edit_parse_family (render_fam e)) <> Some (denote_fam e).
+Example family_example :
+  let e := FList [SFileS [SDef; SImp (Some [NName "new"])]; SSect (STrt None)] in
+  nonempty_fam e = true /\ legal_fam e = true /\ edit_parse_family (render_fam e) = Ok (denote_fam e).
+Proof. repeat split. Qed.
+
+(* two legal sections are accepted whatever they are, in either order and with any file wrapping: no length test is left *)
+Theorem family_edit_any_length : forall l : list sitem, ne l = true -> forallb nonempty_sitem l = true ->
+  legal_sects (flatS false l) = true ->
+  edit_parse_family (render_fam (FList l)) = Ok (denote_fam (FList l)).
 Proof.
-  exists (FList [SSect SDef; SSect (SImp None)]). repeat split. vm_compute. discriminate.
+  intros l H1 H2 H3. apply forget_some.
+  assert (K := parse_family_grammar (FList l)). simpl in K. rewrite H1, H2 in K. specialize (K eq_refl).
+  rewrite H3 in K. exact K.
 Qed.
 
-(* every legal family specification of the known class is rejected, so the class is exactly where the guard fails *)
-Theorem family_edit_multi_all_rejected : forall l : list sitem, List.length l <> 1 ->
-  edit_parse_family (render_fam (FList l)) = Diag DUnexpectedNested.
-Proof.
-  intros l H. simpl. apply parse_family_multi_diag. rewrite map_length. exact H.
-Qed.
+(* family members (F7 repaired): a member's edit(..) is parsed with the actor grammar *)
+Theorem member_parse_grammar : forall e : edit_ast, nonempty e = true ->
+  forget (edit_parse_member (render e)) = if legal e then Some (denote e) else None.
+Proof. exact parse_grammar. Qed.
 
-(* FULL STATEMENT (false of the crate): the `edit` of a family member means what it means for an actor:
-     forall e, nonempty e = true -> forget (edit_parse_member (render e)) = if legal e then Some (denote e) else None. *)
-Theorem member_edit_refuted :
-  (exists e : edit_ast, nonempty e = true /\ legal e = true /\ is_diag (edit_parse_member (render e)) = true)
-  /\ (exists e e', nonempty e = true /\ legal e = true /\ edit_parse_member (render e) = Ok e'
-        /\ ea_script e' = empty_t /\ ea_script (denote e) <> empty_t).
-Proof.
-  split.
-  - exists (EList [EPart (PSol true (Some [SSect (SImp (Some [NName "play"]))]))]). repeat split.
-  - exists EBare. eexists. repeat split. vm_compute. discriminate.
-Qed.
+(* a bare member `edit` means edit(script, live); `edit(file)` additionally writes everything and removes the macro *)
+Theorem member_bare_edit :
+  edit_parse_member (render EBare) = Ok (denote (EList [EPart (PSol true None); EPart (PSol false None)]))
+  /\ edit_parse_member (render EBare) = edit_parse_member (render (EList [EPart (PSol true None); EPart (PSol false None)]))
+  /\ edit_parse_member (render EFileBare) = Ok {| ea_remove := true; ea_script := all_tuples true; ea_live := all_tuples true |}.
+Proof. repeat split. Qed.
+
+(* former witnesses of the member-edit finding *)
+Example member_edit_accepted :
+  let e := EList [EPart (PSol true (Some [SSect (SImp (Some [NName "play"]))]))] in
+  nonempty e = true /\ legal e = true /\ edit_parse_member (render e) = Ok (denote e)
+  /\ ea_script (denote e) = ((false, false), (Some [("play", false)], false), (None, false)).
+Proof. repeat split. Qed.
 
 (* hypotheses of the split theorems are satisfiable on a non-trivial struct *)
 Example split_example :
